@@ -105,7 +105,7 @@ def main():
                     'CAUGHT' if caught else 'MISSED', rc, dt, m['note']))
                 if args.v or not caught:
                     tail = [ln for ln in txt.splitlines()
-                            if not ln.startswith('VIOLATION')][-6:]
+                            if not ln.startswith(('VIOLATION', 'KNOWN-FINDING'))][-6:]
                     print('    ' + '\n    '.join(tail))
                 if not caught:
                     rc_all = 1
